@@ -9,6 +9,7 @@ from ._abnf import ABNF, STATUS_NORMAL, continuous_frame, frame_buffer
 from ._exceptions import (
     WebSocketBadStatusException,
     WebSocketConnectionClosedException,
+    WebSocketPayloadException,
     WebSocketProtocolException,
 )
 from ._handshake import SUPPORTED_REDIRECT_STATUSES, handshake
@@ -420,7 +421,10 @@ class WebSocket:
         if opcode == ABNF.OPCODE_TEXT:
             data_received: Union[bytes, str] = data
             if isinstance(data_received, bytes):
-                return data_received.decode("utf-8")
+                try:
+                    return data_received.decode("utf-8")
+                except UnicodeDecodeError:
+                    raise WebSocketPayloadException("cannot decode payload as UTF-8")
             elif isinstance(data_received, str):
                 return data_received
         elif opcode == ABNF.OPCODE_BINARY:
